@@ -7,6 +7,10 @@ package generic
 
 // ---- C18: callback triggers ----------------------------------------------------------------------
 
+//@ func joinInputEvents [C11]
+//@   noverify
+//@   flows [C11] #inputs-go-only-into-the-returned-description event.ChannelInput only to via:Join#1.arg0, return
+
 //@ func (*Callback).contains [C18]
 //@   let C = c.Insensitive ? lower(c.Contains) : c.Contains
 //@   modifies c.containsBytes
